@@ -67,6 +67,30 @@ func runC05(ctx *Ctx) *Report {
 			cases = append(cases, c)
 		}
 	}
+	// calls without any option, also right after an option-less Verify in the same process (whatever an earlier call
+	// switched on in a part of the tree must not reach this one: a walk never validates names): names that are not
+	// single path elements, ".", ".." among them
+	nn := 300
+	if ctx.Thorough {
+		nn = 5000
+	}
+	for k := 0; k < nn; k++ {
+		f := randForest(ctx.Rng, 1+ctx.Rng.Intn(12), []string{"path", "plain", "path", "unicode"}, 3, rep.Dist)
+		if !representable(f, plainSpelling) {
+			continue
+		}
+		doc := spell(f, plainSpelling)
+		c := newCase("walk")
+		c.Doc, c.DocText, c.Fmt, c.Tree, c.NoOpts = hx(doc), docText(doc), fmtDefault, encForest(f), true
+		c.Alias = k%4 == 1
+		if k%2 == 0 {
+			c.Prior = "verify"
+		}
+		cases = append(cases, c)
+		c2 := newCase("rootwalk")
+		c2.Tree, c2.Fmt, c2.NoOpts, c2.Prior, c2.Alias = f[0].Enc(), fmtDefault, true, c.Prior, k%4 == 3
+		cases = append(cases, c2)
+	}
 	// whatever error the callback returns – also the sentinels other walkers give a meaning to – ends the walk and comes back
 	enumForests(4, []string{"a", "b"}, func(f []*Tree) {
 		t := &Tree{Name: "r", Kids: f}
